@@ -35,6 +35,7 @@ class RefWorld:
         self.max_steps = max_steps
         self.immediate = immediate
         self.keys = {}
+        self.stacks = {}
 
     def interp(self, e):
         return self.eng[e]
@@ -85,6 +86,39 @@ class RefWorld:
     def op_clear(self, e):
         self.op_engine(e)
         return 'ok'
+
+    # --- API-level bindings shared between operations (C13/C15): a stack of active unifications
+    def _subst(self, e):
+        from .terms import unify
+        s = {}
+        for uid, a, b in self.stacks.setdefault(e, []):
+            s2 = unify(a, b, s)
+            if s2 is None:
+                raise Stop('inconsistent stack after non-LIFO release')
+            s = s2
+        return s
+
+    def op_unify(self, e, uid, t1, t2):
+        from .terms import unify
+        a, b = tt(t1), tt(t2)
+        s = self._subst(e)
+        if unify(a, b, s) is None:
+            return 'fail'
+        self.stacks[e].append((uid, a, b))
+        return 'ok'
+
+    def op_assertv(self, e, term, append):
+        t = resolve(tt(term), self._subst(e))
+        self.eng[e].assert_fact(t, append)
+        self.keys[e].add(self.eng[e].fact_key(t))
+        return 'ok'
+
+    def op_release(self, e, uid):
+        self.stacks[e] = [x for x in self.stacks.setdefault(e, []) if x[0] != uid]
+        return 'ok'
+
+    def op_value(self, e, term):
+        return ['value', canon(resolve(tt(term), self._subst(e)))]
 
     def op_open(self, e, qid, goal):
         g = tt(goal)
@@ -139,7 +173,8 @@ class ImplWorld:
         self.eng = {}
         self.q = {}
         self.budget = budget
-        self.raised = []        # exceptions that escaped operations: (op index, signature)
+        self.shared = {}
+        self.unis = {}
 
     def do(self, op, keys=()):
         k = op[0]
@@ -196,6 +231,35 @@ class ImplWorld:
     def op_clear(self, e):
         self.eng[e].clear()
         return 'ok'
+
+    def _shared(self, e, t):
+        return impl.to_engine(self.eng[e], tt(t), self.shared.setdefault(e, {}))
+
+    def op_unify(self, e, uid, t1, t2):
+        g = iter(impl.engine.unify(self._shared(e, t1), self._shared(e, t2)))
+        try:
+            next(g)
+        except StopIteration:
+            return 'fail'
+        self.unis[(e, uid)] = g
+        return 'ok'
+
+    def op_assertv(self, e, term, append):
+        yp = self.eng[e]
+        t = tt(term)
+        args = [self._shared(e, a) for a in (t[2] if t[0] == 'f' else ())]
+        yp.assert_fact(yp.atom(t[1]), args, append)
+        return 'ok'
+
+    def op_release(self, e, uid):
+        g = self.unis.pop((e, uid), None)
+        if g is not None:
+            g.close()
+        return 'ok'
+
+    def op_value(self, e, term):
+        seen = {}
+        return ['value', impl.reify(self._shared(e, term), seen)]
 
     def op_open(self, e, qid, goal):
         yp = self.eng[e]
@@ -330,6 +394,12 @@ def show_op(op):
         return '%s.assert_fact(%s, append=%s)' % (op[1], show(tt(op[2])), op[3])
     if k == 'load':
         return 'load %s overwrite=%s mode=%s: %s' % (op[1], op[3], op[4], gen.program_text(tt(op[2])).replace('\n', ' '))
+    if k == 'unify':
+        return 'unify#%s %s = %s (kept open)' % (op[2], show(tt(op[3])), show(tt(op[4])))
+    if k == 'assertv':
+        return '%s.assert_fact(%s, append=%s) [shared variables]' % (op[1], show(tt(op[2])), op[3])
+    if k == 'value':
+        return 'value %s' % show(tt(op[2]))
     if k == 'register':
         return 'register %s %s/%s style=%s rows=%s yields=%s' % (op[1], op[2], op[4], op[3], [[show(x) for x in r] for r in tt(op[5])], op[6])
     return ' '.join(str(x) for x in op)
